@@ -352,6 +352,8 @@ def _rest(col, crate, adt, gi, DIMS, DATA, sfx):
 
     # ---------------- Y5b writers step the last index fastest
     helpers_ = util.private_helpers(crate, "Tensor", exclude=[gi])
+    # (a private free function over the bare arrays - `last_unfinished_axis(&idx, &dims)` - is a step of its callers too)
+    helpers_ = helpers_ + [f_ for f_ in crate.bodies if not f_.is_closure and f_.kind == "Fn" and f_.container is None and f_.vis != "pub" and not util.self_recursive(f_) and f_.key not in {h.key for h in helpers_}]
     hkeys = {h.key for h in helpers_}
     called_helpers = {util.callee_key(t) for x in crate.bodies for bb, t in x.calls()} & hkeys
     for b in crate.bodies:
